@@ -55,14 +55,14 @@ example : ((init []).run [.spawn .closer [], .step 0, .step 0, .step 0, .step 0,
 transitively reaches a storage mutation either has the strict shape
 `gate · ensure_mutable()? · cancel_guard · (mutations | awaits)* · disarm · poison*`
 (nothing that suspends or writes before the guard is armed or after it is disarmed), or only delegates
-to such methods, or is `close` / `drop_data` with exactly the skeleton the `closer` / `dropper` machines
-mirror; every `&mut self` method checks `ensure_mutable()?` first (or delegates); every private helper
-that writes without guarding itself is only called from guarded callers, other private helpers,
-constructors or `&mut self` methods. -/
+to such methods, or is `close` / `drop_data` with the shape the `closer` / `dropper` machines mirror;
+every `&mut self` method checks `ensure_mutable()?` first (or delegates). Private helpers have no row of their
+own: the generator inlines them into every skeleton that reaches them, so a helper that writes is judged at
+each place it is called from; none of them is called from outside `impl Collection`. -/
 theorem guard_before_first_effect :
-    ∀ m ∈ CollectionGuards.methods, methodOK m = true ∧ innerCallersOK m = true := by
-  have h : CollectionGuards.methods.all (fun m => methodOK m && innerCallersOK m) = true := by decide
-  intro m hm
+    (∀ m ∈ CollectionGuards.methods, methodOK m = true) ∧ CollectionGuards.privateWritersCalledOutside = [] := by
+  have h : CollectionGuards.methods.all (fun m => methodOK m) = true := by decide
+  refine ⟨fun m hm => ?_, by decide⟩
   simpa using List.all_eq_true.mp h m hm
 
 /-- What the accepted shape is, for **every** marker list: up to lifecycle loads, a `GuardOK` skeleton is
@@ -78,21 +78,29 @@ example : GuardOK [.gateRead, .ensureMutable, .cancelGuard, .call "add_impl", .a
 example : GuardOK [.gateRead, .ensureMutable, .call "add_impl", .awaitPt, .cancelGuard, .disarm] = false := by decide
 example : GuardOK [.ensureMutable, .gateRead, .cancelGuard, .call "add_impl", .awaitPt, .disarm] = false := by decide
 
-/-- `flush_inner` — the body of `close` (and of `flush`) — never reaches `self.poison(..)`: inside the
-closer's body the lifecycle is only changed by a concurrent `begin_delete` (what `TI.closerLc` relies on);
-`add` / `update` / `remove` bodies may poison (modelled by the body step `B.poison`). -/
+/-- The armed region of `close` and of `flush` — the checkpoint — never reaches `self.poison(..)`: inside the
+closer's body the lifecycle is only changed by a concurrent `begin_delete` (what `TI.closerLc` relies on), and after
+the gate `close` flushes only when the re-read lifecycle is CLOSING; `add` / `update` / `remove` bodies may poison
+(modelled by the body step `B.poison`). -/
 theorem close_body_never_poisons :
-    (lookup "flush_inner").map (·.poisons) = some false ∧
-    ((lookup "add_impl").map (·.poisons) = some true ∧ (lookup "update_impl").map (·.poisons) = some true ∧
-      (lookup "remove_impl").map (·.poisons) = some true) := by decide
+    (lookup "close").map (fun m => (armedRegion m.skel).contains .poison) = some false ∧
+    (lookup "flush").map (fun m => (armedRegion m.skel).contains .poison) = some false ∧
+    Lifecycle.closeFlushStates = [L.closing.code] ∧
+    ((lookup "add").map (·.poisons) = some true ∧ (lookup "update").map (·.poisons) = some true ∧
+      (lookup "remove").map (·.poisons) = some true) := by decide
 
 /-- `begin_delete` has the skeleton the dropper's first two steps mirror. -/
 theorem begin_delete_skeleton :
     (lookup "begin_delete").map (·.skel) = some beginDeleteSkeleton := by decide
 
+example : CloseOK [.lcLoad, .lcCas, .roStore, .gateWrite, .lcLoad, .cancelGuard, .mut, .awaitPt, .disarm, .poison, .lcStore] = true := by decide
+example : CloseOK [.lcLoad, .lcCas, .roStore, .gateWrite, .cancelGuard, .mut, .awaitPt, .disarm, .lcStore, .poison] = false := by decide
+example : CloseOK [.lcLoad, .lcCas, .gateWrite, .roStore, .lcLoad, .cancelGuard, .mut, .awaitPt, .disarm, .lcStore, .poison] = false := by decide
+example : CloseOK [.lcLoad, .lcCas, .roStore, .gateWrite, .lcLoad, .cancelGuard, .mut, .awaitPt, .poison, .disarm, .lcStore, .poison] = false := by decide
+
 /-- non-vacuity: the table contains the mutating API and they are classified as self-guarded -/
 example : ["add", "update", "remove", "flush", "save_extension", "remove_extension", "compact_btree_index",
-    "compact_bm25_index", "reconcile_storage", "cleanup_removed_index"].all selfGuarded = true := by decide
+    "compact_bm25_index", "reconcile_storage"].all selfGuarded = true := by decide
 example : (lookup "add").map (·.reaches) = some true := by decide
 
 /-! ## no_write_when_retired -/
